@@ -187,7 +187,7 @@ def stmts (sc : Scope) : Tmpl → Stmt
   | .while_ n body => .whileLt n (stmts sc body)
   | .try_ b h => .tryExcept (stmts sc b) (stmts sc h)
   | .def_ _ _ _ _ => .skip
-  | .block name _ _ _ => .exprStmt (.call name [])
+  | .block name _ _ _ => .write (.call name [])   -- `__M_writer(name() or '')`: a buffered block returns its content
   | .call e bodyArgs body =>
     let bsc : Scope := { top := false, cd := true, bind := true, loops := sc.loops || refsLoop body }
     .seq (.prim .saveNextCaller)
@@ -230,18 +230,15 @@ def hoist (sc : Scope) : Tmpl → Stmt
          (hoist { sc with top := false } body)
   | _ => .skip
 
-/-- the defs written into `ccall` (`DefVisitor`).  Direct children of the `<%call>`: defs and blocks (not
-    descended into) and, through nested `<%call>` tags, theirs.  A control line is different: the lexer hangs
-    *every* node that textually follows it (at any tag depth) under the control line as well, so for a control
-    line directly in the `<%call>` every def and block textually inside it is written into `ccall` too
-    (`deepDefs`).  Multiplicities are not modelled (the same def is written up to three times). -/
+/-- the defs written into `ccall` (`DefVisitor`): the defs and blocks among the children of the `<%call>` (the
+    tag's node list is flat, so also those under its control lines); not the content of nested `<%call>`s, whose
+    defs belong to their own `ccall` -/
 def callDefs (sc : Scope) : Tmpl → Stmt
   | .seq a b => .seq (callDefs sc a) (callDefs sc b)
-  | .ite _ t e => .seq (deepDefs sc t) (deepDefs sc e)
-  | .for_ _ _ body => deepDefs sc body
-  | .while_ _ body => deepDefs sc body
-  | .try_ b h => .seq (deepDefs sc b) (deepDefs sc h)
-  | .call _ _ body => callDefs sc body
+  | .ite _ t e => .seq (callDefs sc t) (callDefs sc e)
+  | .for_ _ _ body => callDefs sc body
+  | .while_ _ body => callDefs sc body
+  | .try_ b h => .seq (callDefs sc b) (callDefs sc h)
   | .def_ name params fl body =>
     let s := subScope sc true body
     inlineDef (effLex sc true body) name params fl (ownsLoops sc body)
@@ -256,9 +253,15 @@ def callDefs (sc : Scope) : Tmpl → Stmt
     write into `ccall` - the ones inside blocks that sit directly in the `<%call>` -/
 def bodyHoist (sc : Scope) : Tmpl → Stmt
   | .seq a b => .seq (bodyHoist sc a) (bodyHoist sc b)
+  | .ite _ t e => .seq (bodyHoist sc t) (bodyHoist sc e)
+  | .for_ _ _ body => bodyHoist sc body
+  | .while_ _ body => bodyHoist sc body
+  | .try_ b h => .seq (bodyHoist sc b) (bodyHoist sc h)
   | .block _ _ _ body => hoist sc body
   | _ => .skip
 
+/-- (history: before 6d51f05.. the `DefVisitor` also collected every def textually inside a control line or a
+    nested `<%call>`; kept for reference, no longer used by `callDefs`) -/
 def deepDefs (sc : Scope) : Tmpl → Stmt
   | .seq a b => .seq (deepDefs sc a) (deepDefs sc b)
   | .ite _ t e => .seq (deepDefs sc t) (deepDefs sc e)
